@@ -21,6 +21,9 @@ def instances(tier):
         I("l2_fault", trig="size", count=2, limit=2, sizes=(1, 3), pre="PreNone", maxrec=4, faults=1),
         I("l1_fault_t", trig="size", append=False, count=1, limit=1, sizes=(1, 2), pre="PreNone", maxrec=4, faults=1),
         I("l2_obst", trig="size", count=2, limit=2, sizes=(1, 3), pre="PreNone", maxrec=3, obst=1),
+        # records that encode to zero bytes: the policy is consulted all the same
+        I("l0_zero", trig="size", count=2, limit=0, sizes=(0, 1), pre="PreB", maxrec=3, restart=1),
+        I("l1_zero", trig="size", count=1, limit=1, sizes=(0, 2), pre="PreB", maxrec=3, restart=1),
         I("big", trig="size", count=2, limit=3, sizes=(1, 2, 4), pre="PreB", maxrec=6, restart=2, hist=False),
         I("big_t", trig="size", count=2, append=False, limit=2, sizes=(1, 2, 3), pre="PreB", maxrec=6, restart=2, hist=False),
     ]
